@@ -26,7 +26,12 @@ func init() {
 		Assumptions: []string{"unsupported alternatives (|, in, contains, ~) make all renderings fail alike: consistent, not a violation here",
 			"a string or unit word is never appended after a source ending in a NUMBER (that would form a quantity literal)"},
 		Run:    runC11,
-		Checks: map[string]func(*core.Env, []json.RawMessage){"tree": replayC11, "pure": replayC11Pure, "word": replayC11Word, "chain": replayC11Chain, "typechain": replayC11TypeChain, "biglit": func(env *core.Env, a []json.RawMessage) {
+		Checks: map[string]func(*core.Env, []json.RawMessage){"tree": replayC11, "pure": replayC11Pure, "word": replayC11Word, "chain": replayC11Chain, "typechain": replayC11TypeChain, "deep": func(env *core.Env, a []json.RawMessage) {
+			var d, v int
+			json.Unmarshal(a[0], &d)
+			json.Unmarshal(a[1], &v)
+			c11Deep(env, d, v)
+		}, "biglit": func(env *core.Env, a []json.RawMessage) {
 			var lit string
 			var shape int
 			json.Unmarshal(a[0], &lit)
@@ -491,6 +496,26 @@ func replayC11TypeChain(env *core.Env, a []json.RawMessage) {
 	c11TypeChain(env, op, typeOp, operands, grouping)
 }
 
+// c11Deep: function arguments nested d levels deep, each level inside an operator: the fully parenthesised rendering is
+// a much taller parse tree than the minimal one (a limit on the height of the parse tree shows there).
+func c11Deep(env *core.Env, d int, variant int) {
+	defer env.In("deep", d, variant)()
+	var tree *gen.Expr = &gen.Expr{K: "lit", Text: "1"}
+	for i := 0; i < d; i++ {
+		inner := &gen.Expr{K: "bin", Text: []string{"+", "*", "-"}[(i+variant)%3], Kids: []*gen.Expr{tree, {K: "lit", Text: fmt.Sprint(i + 2)}}}
+		switch (i + variant) % 3 {
+		case 0:
+			tree = &gen.Expr{K: "func", Text: "iif", Kids: []*gen.Expr{{K: "bin", Text: "=", Kids: []*gen.Expr{{K: "lit", Text: "1"}, {K: "lit", Text: "1"}}}, inner, {K: "lit", Text: "0"}}}
+		case 1:
+			tree = &gen.Expr{K: "func", Text: "select", Recv: true, Kids: []*gen.Expr{{K: "lit", Text: "1"}, inner}}
+		default:
+			tree = &gen.Expr{K: "func", Text: "abs", Recv: true, Kids: []*gen.Expr{inner}}
+		}
+	}
+	env.Cover("deep-nesting")
+	c11Check(env, tree, uint64(d)*17+uint64(variant), "deep")
+}
+
 func c11BigLiteral(env *core.Env, lit string, shape int) {
 	defer env.In("biglit", lit, shape)()
 	l := &gen.Expr{K: "lit", Text: lit}
@@ -513,6 +538,14 @@ func c11BigLiteral(env *core.Env, lit string, shape int) {
 		tree = &gen.Expr{K: "bin", Text: "=", Kids: []*gen.Expr{neg, l}}
 	case 6:
 		tree = &gen.Expr{K: "func", Text: "substring", Recv: true, Kids: []*gen.Expr{{K: "lit", Text: "'abc'"}, l, neg}}
+	case 8:
+		tree = &gen.Expr{K: "func", Text: "toString", Recv: true, Kids: []*gen.Expr{l}} // N.toString()
+	case 9:
+		tree = &gen.Expr{K: "index", Kids: []*gen.Expr{names, {K: "func", Text: "abs", Recv: true, Kids: []*gen.Expr{l}}}} // Patient.name[N.abs()]
+	case 10:
+		tree = &gen.Expr{K: "func", Text: "abs", Recv: true, Kids: []*gen.Expr{neg}} // (-N).abs() / -N.abs()
+	case 11:
+		tree = &gen.Expr{K: "bin", Text: "+", Kids: []*gen.Expr{{K: "func", Text: "abs", Recv: true, Kids: []*gen.Expr{l}}, {K: "member", Text: "value", Kids: []*gen.Expr{l}}}}
 	default:
 		tree = &gen.Expr{K: "index", Kids: []*gen.Expr{{K: "index", Kids: []*gen.Expr{names, l}}, {K: "bin", Text: "-", Kids: []*gen.Expr{l, l}}}} // Patient.name[N][N - N]
 	}
@@ -641,10 +674,18 @@ func runC11(env *core.Env) {
 			c11Word(env, w, 12)
 		}
 	}
+	for d := 2; d <= 14; d++ {
+		for variant := 0; variant < 3; variant++ {
+			k++
+			if env.Mine(k) {
+				c11Deep(env, d, variant)
+			}
+		}
+	}
 	// integer literals at and beyond the Integer range, in every position a literal can stand (a literal means the same
 	// with and without parentheses around it)
 	for _, lit := range []string{"2147483647", "2147483648", "4294967296", "4294967297", "9223372036854775808", "99999999999999999999", "0", "00", "007"} {
-		for shape := 0; shape < 8; shape++ {
+		for shape := 0; shape < 13; shape++ {
 			k++
 			if env.Mine(k) {
 				c11BigLiteral(env, lit, shape)
